@@ -26,7 +26,10 @@ struct TraceOut {
         if (!f) return; va_list ap; va_start(ap, fmt); vfprintf(f, fmt, ap); va_end(ap); fputc('\n', f); ++events;
     }
     // the granted-step sequence of the execution (thread ids; -(t+1) = store-buffer drain): kept out of the validation, used for replay
-    void sched(const std::vector<int>& log) { if (!f) return; fputs("{\"e\":\"#sched\",\"s\":\"", f); for (size_t i = 0; i < log.size(); i++) fprintf(f, i ? " %d" : "%d", log[i]); fputs("\"}\n", f); }
+    // (a cut-off run has millions of steps: only its length and its last 4000 decisions are kept - the run is reproduced from its seed, not from this record)
+    void sched(const std::vector<int>& log) { if (!f) return; size_t from = log.size() > 2000000 ? log.size() - 4000 : 0;
+        if (from) fprintf(f, "{\"e\":\"#sched\",\"len\":%zu,\"tail\":\"", log.size()); else fputs("{\"e\":\"#sched\",\"s\":\"", f);
+        for (size_t i = from; i < log.size(); i++) fprintf(f, i > from ? " %d" : "%d", log[i]); fputs("\"}\n", f); }
     void close() { if (f) fclose(f); f = nullptr; }
 };
 
